@@ -39,6 +39,10 @@ RULES = [
      ("theorem:lineAfter_total", "inside `if let Some(rest) = line_string.get(match_col..)`: match_col is a boundary <= len")),
     (r"preview/diff\.rs", r"^render_diff$", r"regex::replace_range", r".",
      ("theorem:diffStep_total", "behind `after_line.get(col..).is_some_and(.. starts_with(&hunk.content))`")),
+    (r"main\.rs", r"^argv_asks_for_json$", r"regex::env_args", r".",
+     ("known-finding:argv_nonutf8_parse_error", "std::env::args() panics on an argument that is not valid Unicode; reached when clap "
+                                                "rejects the command line (cc8b751)")),
+    (r"main\.rs", r"^argv_asks_for_json$", r"indexing_slicing", r"^w\[[01]\]$", ("infallible", "`windows(2)` yields slices of length exactly 2")),
     # ---- sites added by other fix commits after the first C16 pass (reviewed at the frozen HEAD 451dd24) -----------------
     (r"lock\.rs", r"^release_held_locks$", r"regex::drain", r".", ("infallible", "`held.drain(..)` over the full range cannot be out of bounds")),
     (r"compound_matcher\.rs", r"^untouched_text_survives_rejoin$", r"indexing_slicing", r"bytes\[cursor\]",
@@ -168,7 +172,8 @@ RULES = [
     (r"lib\.rs", r"^configure_walker$", r"indexing_slicing", r"roots\[0\]", ("unclassified", "")),
     (r"operations/rename\.rs", r"^generate_root_rename_snippet$", r"indexing_slicing", r"root_renames\[0\]", ("unclassified", "")),
     (r"ambiguity/", r".", r"indexing_slicing|string_slice|unwrap_used", r".", ("unclassified", "")),
-    (r"undo\.rs", r"^apply_single_patch$", r"regex::split_at", r".", ("unclassified", "")),
+    (r"undo\.rs", r".", r"regex::split_at", r".",
+     ("unreachable-from-input", "inside a `#[cfg(windows)]` block (not compiled here); line_end = find('\\n') or len, a character boundary")),
     (r"case_constraints\.rs", r"^has_consecutive_uppercase$", r"indexing_slicing", r"chars\[(i|start\.\.i)\]",
      ("infallible", "i < chars.len() in both loop conditions; start <= i <= len")),
     # ---- additions, increments, multiplications on in-memory sizes ---------------------------------------------------
